@@ -106,6 +106,60 @@ Definition prop (c:T) := let '(p1, p2) := fst c in let '((((a, b), i), m), g) :=
   else match a, b, i, m, g with Raises _, Raises _, Raises _, Raises _, Raises _ => true | _, _, _, _, _ => false end.
 """
 
+PRE_WHILE = """From Coq Require Import PrimFloat Uint63 QArith.
+From IQ.gen Require Import Prims Loops.
+From IQ Require Import Intervals IntervalsSpec.
+Open Scope Z_scope.
+(* the REGENERATED functions with `while` loops (gen/Loops.v, checked form: py_run) and get_exon against the Python functions *)
+Inductive fout := FOk (f:float) | FRaises (k:Z).
+Definition fdiv (a b:Z) : float := PrimFloat.div (PrimFloat.of_uint63 (Uint63.of_Z a)) (PrimFloat.of_uint63 (Uint63.of_Z b)).
+Definition run_out {A} (r:py_run A) : outcome A := match r with py_Done v => Ok v | py_Raises k => Raises k | py_OutOfFuel => Raises 99%N end.
+(* float(i) / float(u) with i, u integers: the translation keeps the quotient unreduced (numerator i, denominator u > 0) *)
+Definition qrun_matches (r:py_run Q) (o:fout) : bool :=
+  match r, o with py_Done q, FOk f => PrimFloat.eqb (fdiv (Qnum q) (Z.pos (Qden q))) f | py_Raises k, FRaises k' => Z.eqb (Z.of_N k) k' | _, _ => false end.
+Definition T := (((list iv * list iv) * (iv * Z)) * (((((outcome Z * outcome Z) * fout) * fout) * outcome (list iv)) * outcome iv))%type.
+Definition fuel := 60%nat.
+Definition check (c:T) := let '((A, B), (r, p)) := fst c in let '(((((st, sf), cv), j), m), ge) := snd c in
+  outcome_eqb Z.eqb (run_out (py_sum_intervals_to_point fuel A p)) st && outcome_eqb Z.eqb (run_out (py_sum_intervals_from_point fuel A p)) sf &&
+  qrun_matches (py_read_coverage_fraction fuel A B) cv && qrun_matches (py_jaccard_similarity fuel A B) j &&
+  outcome_eqb ivs_eqb (run_out (py_merge_ranges fuel A B)) m &&
+  outcome_eqb iv_eqb (if negb (p <=? Z.of_nat (length A)) then Raises AssertionError else if py_get_exon_pre r A p then Ok (py_get_exon r A p) else Raises IndexError) ge.
+(* the specifications of these functions are evaluated in the other correspondences; here: prefix + suffix sums add up inside the list *)
+Definition prop (c:T) := let '((A, B), (r, p)) := fst c in let '(((((st, sf), cv), j), m), ge) := snd c in
+  match st, sf with Ok x, Ok y => if sdb A then (x + y <=? fold_right (fun a s => (snd a - fst a + 1) + s) 0 A) else true | _, _ => true end.
+"""
+
+PRE_HELPERS2 = """From IQ.gen Require Import Prims Loops.
+From IQ Require Import Intervals IntervalsSpec ProfileHelpers ProfileHelpers2.
+Open Scope Z_scope.
+(* further REGENERATED profile helpers (gen/Loops.v; no hand model): value under py_<f>_pre, an exception otherwise *)
+Definition T := (((list Z * list Z) * (option iv * Z)) * ((((((outcome bool * outcome bool) * outcome Z) * outcome (list Z)) * outcome bool) * outcome bool) * outcome Z))%type.
+(* py_<f>_pre is sufficient for the absence of exceptions (for loops with an early exit it asks for every iteration to be in range): under it
+   the value is the implementation's; an exception of the implementation implies that it fails *)
+Definition agrees {A} (e:A -> A -> bool) (pre:bool) (v:A) (o:outcome A) : bool := match o with Ok w => negb pre || e v w | Raises _ => negb pre end.
+Definition check (c:T) := let '((p1, p2), (org, lim)) := fst c in let '((((((ov, eq), df), fm), lt), rt), ri) := snd c in
+  let rg := match org with Some r => r | None => whole p1 end in
+  agrees Bool.eqb (py_has_overlapping_features_pre p1 p2 org) (py_has_overlapping_features p1 p2 org) ov &&
+  agrees Bool.eqb (py_equal_profiles_in_range_pre p1 p2 rg) (py_equal_profiles_in_range p1 p2 rg) eq &&
+  agrees Z.eqb (py_difference_in_present_features_pre p1 p2 lim org) (py_difference_in_present_features p1 p2 lim org) df &&
+  agrees zs_eqb (py_find_matching_positions_pre p1 p2) (py_find_matching_positions p1 p2) fm &&
+  agrees Bool.eqb (py_left_truncated_pre p1 p2) (py_left_truncated p1 p2) lt &&
+  agrees Bool.eqb (py_right_truncated_pre p1 p2) (py_right_truncated p1 p2) rt &&
+  agrees Z.eqb (py_rindex_pre p1 lim) (py_rindex p1 lim) ri.
+(* the declarative readings of ProfileHelpers2.v on the implementation's output, for profiles of equal length and ranges inside them *)
+Definition prop (c:T) := let '((p1, p2), (org, lim)) := fst c in let '((((((ov, eq), df), fm), lt), rt), ri) := snd c in
+  let rg := match org with Some r => r | None => whole p1 end in
+  if Nat.eqb (length p1) (length p2) && range_ok p1 rg then
+    match ov with Ok v => Bool.eqb v (spec_overlapping p1 p2 rg) | Raises _ => false end &&
+    match eq with Ok v => Bool.eqb v (spec_equal_in_range p1 p2 rg) | Raises _ => false end &&
+    match df with Ok v => if lim =? -1 then v =? spec_difference p1 p2 rg else (v <=? spec_difference p1 p2 rg) && ((v =? spec_difference p1 p2 rg) || (lim <? v)) | Raises _ => false end &&
+    match fm with Ok v => zs_eqb v (spec_matching p1 p2) | Raises _ => false end &&
+    match lt with Ok v => Bool.eqb v (spec_left_truncated p1 p2) | Raises _ => false end &&
+    match rt with Ok v => Bool.eqb v (spec_right_truncated p1 p2) | Raises _ => false end &&
+    match ri, last_pos p1 lim with Ok v, Some k => v =? k | Raises _, None => true | _, _ => false end
+  else true.
+"""
+
 PRE_SWEEP = """From Coq Require Import PrimFloat Uint63.
 From IQ.gen Require Import Prims.
 From IQ Require Import Intervals IntervalsSpec.
@@ -313,6 +367,50 @@ def run(ctx):
     ctx.rule("regenerated profile helpers of src/common.py without a hand model (gen/Loops.v: count_both_present_features, all_features_present, has_inconsistent_features, mask_profile, get_blocks_from_profile): every pair of profiles of equal length <= 3 over {-2,-1,0,1} (exhaustive) + pairs of unequal length (AssertionError) + random profiles of length 4-12; specification = the position-wise readings of ProfileHelpers.v (proved of the regenerated functions in C19_*_spec)")
     mism, viol = ctx.corr("translated_profile_helpers", PRE_HELPERS, cases, shard=1500, nontrivial=lambda o: 1 in o["profile1"] and 1 in o["profile2"])
     ctx.corr_report("translated_profile_helpers", mism, viol)
+
+    # ---- 0d. regenerated functions with `while` loops (checked form, explicit fuel) and get_exon
+    cases = []
+    wl = [list(l) for l in sd_lists(5, 2)] + [[(1, 1), (3, 3), (5, 6)], [(3, 5), (1, 2)], [(1, 4), (2, 6)], [(2, 2), (2, 2)]]          # no inverted intervals: the float check needs non-negative integers
+    wpairs = [(a, b) for a in wl for b in wl]
+    if quick and len(wpairs) > 1500: wpairs = rnd.sample(wpairs, 1500)
+    for _ in range(100 if quick else 1500): wpairs.append((rand_sd(rnd, rnd.randint(1, 12), span=120), rand_sd(rnd, rnd.randint(1, 12), span=120)))
+    cfo = lambda r: "(FOk (%s)%%float)" % float(r[1]).hex() if r[0] == "ok" else "(FRaises %d)" % r[1]          # negative values need the parentheses
+    for A, B in wpairs:
+        for pos in ((-1, 0, 2, 4, 7) if len(A) <= 3 else (rnd.randint(0, 130),)):
+            r = (0, 9)
+            st = call(c.sum_intervals_to_point, A, pos); sf = call(c.sum_intervals_from_point, A, pos)
+            cv = call(c.read_coverage_fraction, A, B); j = call(c.jaccard_similarity, A, B); m = call(c.merge_ranges, A, B)
+            ge = call(c.get_exon, r, A, pos)
+            cases.append(("(((%s, %s), (%s, %s)), (((((%s, %s), %s), %s), %s), %s))" % (civs(A), civs(B), civ(r), cz(pos), cout(st, cz), cout(sf, cz), cfo(cv), cfo(j), cout(m, civs), cout(ge, civ)),
+                          {"A": A, "B": B, "pos": pos, "sum_to": st, "sum_from": sf, "coverage": cv, "jaccard": j, "merge": m, "get_exon(region (0,9), A, pos)": ge}))
+    ctx.rule("regenerated functions with while loops (gen/Loops.v, fuel 60: sum_intervals_to_point, sum_intervals_from_point, read_coverage_fraction, jaccard_similarity, merge_ranges; and get_exon): pairs of lists of <=2 intervals over 5 positions + unsorted / overlapping / inverted lists x 5 positions, + random lists of up to 12 intervals; bridged to the hand models for all inputs by C19_*_is_the_source except jaccard_similarity / merge_ranges (translated only)")
+    mism, viol = ctx.corr("translated_while", PRE_WHILE, cases, shard=800, nontrivial=lambda o: len(o["A"]) > 0 and len(o["B"]) > 0, ctype="T")
+    ctx.corr_report("translated_while", mism, viol)
+
+    # ---- 0e. further regenerated profile helpers without a hand model (ranges, default arguments, membership / index)
+    def call2(f, *a):
+        try: return ("ok", f(*a))
+        except (IndexError, AssertionError): return ("exc", 1)
+        except ValueError: return ("exc", 5)
+    cases = []
+    vals = (-1, 0, 1)
+    profs = [list(p) for n in range(0, 4) for p in itertools.product(vals, repeat=n)]
+    pairs = [(a, b) for a in profs for b in profs if len(a) == len(b)] + [(a, b) for a in profs[:13] for b in profs[:13] if len(a) != len(b)]
+    for a, b in pairs:
+        n = len(a)
+        ranges = [None] + [(x, y) for x in range(0, n + 1) for y in range(x, n + 1)] + ([(0, n + 1), (-1, n), (2, 1)] if n <= 2 else [])
+        for rg in ranges:
+            for lim in ((-1, 0, 1) if rg is None or rg == (0, n) else (-1,)):
+                ov = call2(c.has_overlapping_features, a, b, rg) if rg is not None else call2(c.has_overlapping_features, a, b)
+                eq = call2(c.equal_profiles_in_range, a, b, rg if rg is not None else (0, n))
+                df = call2(c.difference_in_present_features, a, b, lim, rg)
+                fm = call2(c.find_matching_positions, a, b); lt = call2(c.left_truncated, a, b); rt = call2(c.right_truncated, a, b); ri = call2(c.rindex, a, lim)
+                cases.append(("(((%s, %s), (%s, %s)), ((((((%s, %s), %s), %s), %s), %s), %s))" % (czs(a), czs(b), copt(rg, civ), cz(lim), cout(ov, cbool), cout(eq, cbool), cout(df, cz), cout(fm, czs), cout(lt, cbool), cout(rt, cbool), cout(ri, cz)),
+                              {"profile1": a, "profile2": b, "range": rg, "diff_limit / element": lim, "overlapping": ov, "equal_in_range": eq, "difference": df, "matching": fm, "left_truncated": lt, "right_truncated": rt, "rindex(profile1, element)": ri}))
+    if quick and len(cases) > 9000: cases = rnd.sample(cases, 9000)
+    ctx.rule("further regenerated profile helpers (gen/Loops.v: has_overlapping_features, equal_profiles_in_range, difference_in_present_features with its defaults, find_matching_positions, left_truncated, right_truncated, rindex): every pair of profiles of equal length <= 3 over {-1,0,1} x every range inside the profile + ranges outside it (IndexError) + diff_limit -1/0/1; specification = the readings of ProfileHelpers2.v")
+    mism, viol = ctx.corr("translated_profile_helpers2", PRE_HELPERS2, cases, shard=1500, nontrivial=lambda o: 1 in o["profile1"] and 1 in o["profile2"], ctype="T")
+    ctx.corr_report("translated_profile_helpers2", mism, viol)
 
     # ---- 1. two-list sweeps: jaccard, merge_ranges, read_coverage_fraction
     U = 6 if quick else 8
